@@ -70,6 +70,17 @@ fn emit(out: &mut dyn Write, k: usize, src: &str, prog: Prog, rng: &mut Rng) {
     writeln!(out, "(case {k} (in {src} {before} {args}) {after})").unwrap();
 }
 
+/// debugging aid: pretty-print one generated program before and after linearization
+pub fn cmd_lin_show(seed: u64) {
+    use printer::Print;
+    let mut rng = Rng::new(seed);
+    let mut sub = rng.fork();
+    let mut prog = Gen::new(&mut sub).program();
+    println!("{}\n-- max_id {}\n==== linearized ====", prog.print_to_string(None), prog.max_id);
+    prog.linearize();
+    println!("{}\n-- max_id {}", prog.print_to_string(None), prog.max_id);
+}
+
 pub fn cmd_lin(seed: u64, n: usize, out: &mut dyn Write, dirs: &[String]) {
     let mut rng = Rng::new(seed);
     let mut files = Vec::new();
